@@ -1612,11 +1612,12 @@ class Cell(Bucket):
         """Remove blacklisted apps from servers.
         """
         for app in queue:
-            if app.blacklisted and app.server:
-                server = servers[app.server]
-                _LOGGER.info('Removing blacklisted app %s from %s',
-                             app.name, server.name)
-                server.remove(app.name)
+            if app.blacklisted:
+                if app.server:
+                    server = servers[app.server]
+                    _LOGGER.info('Removing blacklisted app %s from %s',
+                                 app.name, server.name)
+                    server.remove(app.name)
                 app.release_identity()
 
     def _find_placements(self, queue, servers):
@@ -1645,7 +1646,7 @@ class Cell(Bucket):
                     assert app.server in servers
                     assert app.has_identity()
                     servers[app.server].remove(app.name)
-                    app.release_identity()
+                app.release_identity()
 
                 continue
 
